@@ -30,12 +30,12 @@ def _case(draw):
     w = draw(gens.witness_s(gens.contract_names(c1, c2))) if "witness" not in base else base["witness"]
     # plant overlapping interface-level guarantees
     shared = [v for v in c1["i"] + c1["o"] if v in c2["i"] + c2["o"]]
-    plant = draw(st.sampled_from(["none", "identical", "scaled", "loosened", "mutual", "identical"]))
+    plant = draw(st.sampled_from(["none", "identical", "scaled", "loosened", "mutual", "identical", "lookalike", "lookalike"]))
     pool1, pool2 = c1["i"] + c1["o"], c2["i"] + c2["o"]
     common = [v for v in pool1 if v in pool2]
     if plant != "none" and common:
         # a term over variables both contracts may mention; constants chosen generously so the systems stay satisfiable
-        k = draw(st.integers(1, min(2, len(common))))
+        k = draw(st.integers(2 if (plant == "lookalike" and len(common) >= 2) else 1, min(3 if plant == "lookalike" else 2, len(common))))
         vs = draw(st.lists(st.sampled_from(common), min_size=k, max_size=k, unique=True))
         co = {v: draw(gens.coef_s()) for v in vs}
         c = float(draw(st.integers(3, 12)))
@@ -46,6 +46,12 @@ def _case(draw):
         elif plant == "scaled":
             f = draw(st.sampled_from([2, 0.5, 3]))
             c2 = dict(c2, g=c2["g"] + [[{k2: v * f for k2, v in co.items()}, c * f]])
+        elif plant == "lookalike":
+            # same variables, same constant, one coefficient different: a different constraint that must not be taken for a duplicate
+            co2 = dict(co)
+            v0 = list(co2)[draw(st.integers(0, len(co2) - 1))]
+            co2[v0] = co2[v0] + draw(st.sampled_from([1, -1, 2, 0.5])) or 3.0
+            c2 = dict(c2, g=c2["g"] + [[co2, c]])
         elif plant == "loosened":
             c2 = dict(c2, g=c2["g"] + [[dict(co), c + draw(st.sampled_from([0.5, 1, 2]))]])
         else:  # mutual: {x<=c1, y<=c2} vs {x+y<=c1+c2, -y<=-c2 ...}: implied both ways only as sets
